@@ -45,8 +45,8 @@ var concCurated = [][2]string{
 	{"-", "D2:r1[0],D2:r1[+]|D2:r1[+]"},                                    // nil interface value through Decode (no panic)
 	{"1>2", "D0:d[+],D0:r1[D0:d[+];+]|X0:d[+]"},                            // direct objects
 	{"1>2,2>3", "D0:r1[-]|D0:r2[+]|D1:r1[+]"},                              // errors are not cached; types are separate
-	{"-", "X2:r1[0],X2:r1[+]"},                                             // C18-F1: nil interface value, second exclusive decode panics
-	{"-", "X2:r1[0]|X2:r1[+]"},                                             // C18-F1: ... or the waiter does
+	{"-", "X2:r1[0],X2:r1[+]"},                                             // C18-F1 (fixed in e69b1c0): nil interface value, second exclusive decode; regression detector
+	{"-", "X2:r1[0]|X2:r1[+]"},                                             // C18-F1 (fixed): ... and the waiter
 	{"1>2", "D0:r2[+],D0:r1[+],P01:r1,D0:r1[+]"},                           // C18-F2: pair published on the head of a reference chain
 }
 
